@@ -79,6 +79,10 @@ func (m *CPU) Run(app risc.Application) (int, error) {
 		m.writeUnit.cycle(m.ctx, m.writeBus)
 
 		if ret {
+			for !m.writeBus.IsEmpty() {
+				cycle++
+				m.writeUnit.cycle(m.ctx, m.writeBus)
+			}
 			break
 		}
 		if flush {
